@@ -71,6 +71,8 @@ class newton_solver:
                 log(f"Beginning Newton iteration with initial guess = {self.initial_guess} \n Tolerance is set to {self.tolerance} \n Number of iterations allowed = {self.max_iterations} \n") # Output information at the beginning of the iteration.    
                 iteration_counter = 0
                 self.x_old = self.initial_guess # Set x_old to the initial guess.
+                self.residual = 10 # Forget the convergence state of any previous solve
+                self.error = 10
                 while(self.residual > self.tolerance or self.error > self.tolerance): # Enter while loop; checking if residual is larger than tolerance 
                       if(iteration_counter >= self.max_iterations): # Checking if the current iteration is larger than the max iteration allowed.
                             # log(f"Exceeded number of iterations. Exiting iteration.")
